@@ -74,6 +74,14 @@ impl OFCase {
     }
 }
 
+/// when non-zero, record `i` gets the id `r{i % ID_MOD}`: inputs in which several records share an id (cases run one at a time)
+pub static ID_MOD: std::sync::atomic::AtomicUsize = std::sync::atomic::AtomicUsize::new(0);
+
+pub fn rec_id(i: usize) -> String {
+    let m = ID_MOD.load(std::sync::atomic::Ordering::SeqCst);
+    format!("r{}", if m > 0 { i % m } else { i })
+}
+
 pub fn input_case(recs: &[Vec<u8>], container: &str) -> (IoCase, &'static str) {
     let fastq = container.starts_with("fq");
     let wrap = container.strip_prefix("fawrap:").and_then(|w| w.parse().ok()).unwrap_or(1_000_000);
@@ -85,7 +93,7 @@ pub fn input_case(recs: &[Vec<u8>], container: &str) -> (IoCase, &'static str) {
         recs: recs
             .iter()
             .enumerate()
-            .map(|(i, s)| Src { id: format!("r{}", i).into_bytes(), desc: None, seq: s.clone(), qual: vec![b'I'; s.len()] })
+            .map(|(i, s)| Src { id: rec_id(i).into_bytes(), desc: None, seq: s.clone(), qual: vec![b'I'; s.len()] })
             .collect(),
         container: if container.ends_with("gzm") { "gzm".into() } else if container.ends_with("gz") { "gzc".into() } else { "plain".into() },
         suffix: if fastq { ".fq".into() } else { ".fa".into() },
